@@ -303,8 +303,11 @@ static void exhaustive(void)
 					}
 					run++;
 					vh_evaluations++;
-					if ((flags & F_OUT_OF_ORDER_SEND) && (flags & (F_WRAPPED | F_FULL_NULL)))
+					if ((flags & F_OUT_OF_ORDER_SEND) && (flags & (F_WRAPPED | F_FULL_NULL))) {
 						VH_COUNT_N("__distinct_exact", 1);
+						if (vh_want_sample() && idx % 1009 == 3)
+							vh_sample("depth %d size %d slack %d: %s", depth, msg, slack, trace.b);
+					}
 					if (vh_nviol >= 6)
 						goto out;
 				}
